@@ -149,6 +149,12 @@ impl Prop for C15 {
             }
             ev = out;
         }
+        // one run in eight exercises the same generic code instantiated at f32 (moderate magnitudes only, so
+        // that every value survives the conversion with its sign class)
+        let f32_mode = r.chance(0.125) && scale >= 1e-4 && shape as usize % SHAPES.len() != 15 && f32_params_ok(&tree);
+        if f32_mode {
+            sc.mode = "calls_f32".into();
+        }
         sc.trees.push(tree);
         sc.events = ev;
         sc.set_int("shape", shape as i64);
@@ -165,11 +171,49 @@ impl Prop for C15 {
             out.invalid = Some("no tree".into());
             return out;
         }
+        match sc.mode.as_str() {
+            "calls_f32" => {
+                // the generic code instantiated at f32: every delivered value must survive the conversion as a
+                // finite value of moderate magnitude with its sign class intact
+                let bad = sc.events.iter().any(|e| match *e {
+                    Ev::D { v, .. } => v != 0.0 && !(v.abs() >= 1e-6 && v.abs() <= MAX_MAG),
+                    _ => false,
+                });
+                if bad || !f32_params_ok(&sc.trees[0]) {
+                    out.invalid = Some("f32 mode needs magnitudes in {0} u [1e-6, 1e7] and an ALMA sigma <= 6".into());
+                    return out;
+                }
+                out.stats.hit("reach.instantiated_at_f32");
+                run_calls::<f32>(sc, out, 1.0e15)
+            }
+            _ => run_calls::<f64>(sc, out, MAX_NODE_INPUT),
+        }
+    }
+    fn rule(&self) -> String {
+        "Run i<S1 enumerates every wrapper (32 unary views + PFE + EFT) alone at every N in the tier's list (quick: 1..9,16,33,64; thorough: 1..64) under each of the 14 workload shapes; the next block enumerates every ordered pair of wrappers as a two-level chain at several (N_outer,N_inner); the remaining runs are random trees (depth 2-3, combinators, stalled leaves). Everything else (secondary parameters, stall length, magnitude scale in {0} u [1e-3,1e6], stream length 1..600 (0.3% long: 4.2k-1.1M; thorough: a further slice up to 10^4), last() before the first update, repeated last(), clone and drop points) is drawn from the run's PRNG. A case is the pair (topology+parameters, event-kind schedule); distinct = distinct hash of that pair; non-trivial = a stall, an early or repeated last(), a clone or a drop fired and at least one delivery executed after it. The whole batch is executed by two builds of the same harness: debug assertions + overflow checks on, and both off. One run in eight (where the feed's magnitudes are 0 or within [1e-6,1e7] and a custom ALMA has sigma <= 6) executes the library's generic code instantiated at f32 instead of f64; the oracles are the same."
+            .into()
+    }
+    fn assumptions(&self) -> Vec<String> {
+        vec![
+            "inputs are finite, of magnitude 0 or within [1e-3,1e7], positive where the tree contains Drawdown/LnReturn, and divisor positions hold positivity-preserving subtrees".into(),
+            "a constructor that panics (rejects its arguments) is not a violation: the property is about constructed views".into(),
+            "moderate magnitude holds for every node of a chain: a panic is not a finding when the panicking node had been fed a value beyond 1e100 by its own child; counted under skipped.immoderate_intermediate_magnitude".into(),
+            "f32 runs: a custom ALMA keeps sigma <= 6 (the library's default): with a narrower Gaussian the weight of the first sample underflows to zero in f32 and the average is 0/0, exactly as it is in f64 beyond sigma ~ 27 - a limit of the parameter range, not of the call schedule; a value beyond 1e15 fed to a node by its own child counts as immoderate there (1e100 in f64)".into(),
+            "secondary parameters stay in their documented ranges (gamma in [0,1), Ema weight alpha/(N+1) in (0,1], Alma sigma>0, offset in [0,1])".into(),
+        ]
+    }
+    fn must_reach(&self, _t: Tier) -> Vec<&'static str> {
+        vec!["reach.last_before_first_update", "reach.repeated_last", "reach.window_longer_than_stream", "reach.window_1_or_2", "ev.fork", "ev.drop", "reach.stalled_child", "reach.instantiated_at_f32"]
+    }
+}
+
+/// the call schedule of a scenario against the trees instantiated at scalar type T
+fn run_calls<T: crate::dynview::Scalar>(sc: &Scenario, mut out: RunOut, node_limit: f64) -> RunOut {
         let spec = &sc.trees[0];
         let st = &mut out.stats;
         let mut h = Fnv::new();
         let mut ctx = Ctx::default();
-        let root = match try_build::<f64>(spec, &mut ctx) {
+        let root = match try_build::<T>(spec, &mut ctx) {
             Ok(v) => v,
             Err(_) => {
                 // a constructor that rejects its arguments is not a violation
@@ -181,7 +225,7 @@ impl Prop for C15 {
         if has_stall {
             st.hit("reach.stalled_child");
         }
-        let mut reps: Vec<Option<Dyn<f64>>> = vec![Some(root)];
+        let mut reps: Vec<Option<Dyn<T>>> = vec![Some(root)];
         let mut delivered = vec![0usize];
         let mut hist: Vec<Vec<f64>> = vec![vec![]];
         let mut viol_rep = 0usize;
@@ -202,7 +246,7 @@ impl Prop for C15 {
                     let view = reps[r].as_mut().unwrap();
                     hist[r].push(v);
                     viol_rep = r;
-                    if let Err(p) = try_update(view, v) {
+                    if let Err(p) = try_update(view, T::of(v)) {
                         out.violation = Some(panic_at(p, step, "update"));
                         break;
                     }
@@ -213,7 +257,7 @@ impl Prop for C15 {
                         continue;
                     }
                     match try_last(view) {
-                        Ok(o) => h.opt(o),
+                        Ok(o) => h.opt(o.map(|x| x.f())),
                         Err(p) => {
                             out.violation = Some(panic_at(p, step, "last"));
                             break;
@@ -237,7 +281,7 @@ impl Prop for C15 {
                     let mut bad = None;
                     for _ in 0..k {
                         match try_last(view) {
-                            Ok(o) => h.opt(o),
+                            Ok(o) => h.opt(o.map(|x| x.f())),
                             Err(p) => {
                                 bad = Some(p);
                                 break;
@@ -287,7 +331,7 @@ impl Prop for C15 {
             out.violation = None;
             st.hit("skip.run_time_budget");
         }
-        if out.violation.is_some() && fed_immoderate_magnitude(spec, &hist[viol_rep.min(hist.len() - 1)], Symptom::Panic) {
+        if out.violation.is_some() && fed_immoderate_magnitude_t::<T>(spec, &hist[viol_rep.min(hist.len() - 1)], Symptom::Panic, node_limit) {
             // e.g. a finiteness assertion tripped by the square of a 1e200 that an inner Roc legitimately produced
             out.violation = None;
             st.hit("skip.immoderate_intermediate_magnitude");
@@ -310,21 +354,11 @@ impl Prop for C15 {
         }
         out.hist = h.0;
         out
-    }
+}
 
-    fn rule(&self) -> String {
-        "Run i<S1 enumerates every wrapper (32 unary views + PFE + EFT) alone at every N in the tier's list (quick: 1..9,16,33,64; thorough: 1..64) under each of the 14 workload shapes; the next block enumerates every ordered pair of wrappers as a two-level chain at several (N_outer,N_inner); the remaining runs are random trees (depth 2-3, combinators, stalled leaves). Everything else (secondary parameters, stall length, magnitude scale in {0} u [1e-3,1e6], stream length 1..600 (0.3% long: 4.2k-1.1M; thorough: a further slice up to 10^4), last() before the first update, repeated last(), clone and drop points) is drawn from the run's PRNG. A case is the pair (topology+parameters, event-kind schedule); distinct = distinct hash of that pair; non-trivial = a stall, an early or repeated last(), a clone or a drop fired and at least one delivery executed after it. The whole batch is executed by two builds of the same harness: debug assertions + overflow checks on, and both off."
-            .into()
-    }
-    fn assumptions(&self) -> Vec<String> {
-        vec![
-            "inputs are finite, of magnitude 0 or within [1e-3,1e7], positive where the tree contains Drawdown/LnReturn, and divisor positions hold positivity-preserving subtrees".into(),
-            "a constructor that panics (rejects its arguments) is not a violation: the property is about constructed views".into(),
-            "moderate magnitude holds for every node of a chain: a panic is not a finding when the panicking node had been fed a value beyond 1e100 by its own child; counted under skipped.immoderate_intermediate_magnitude".into(),
-            "secondary parameters stay in their documented ranges (gamma in [0,1), Ema weight alpha/(N+1) in (0,1], Alma sigma>0, offset in [0,1])".into(),
-        ]
-    }
-    fn must_reach(&self, _t: Tier) -> Vec<&'static str> {
-        vec!["reach.last_before_first_update", "reach.repeated_last", "reach.window_longer_than_stream", "reach.window_1_or_2", "ev.fork", "ev.drop", "reach.stalled_child"]
-    }
+/// Secondary parameters admissible at f32: a custom ALMA's Gaussian must not be so narrow that the weight of the
+/// first sample, exp(-((N+1)*offset*sigma/N)^2/2), underflows to zero (f64: sigma <= 10 keeps the exponent above
+/// -200 for every N; f32 underflows below -103, which sigma <= 6, the library's default, avoids for every N)
+pub fn f32_params_ok(tree: &Spec) -> bool {
+    !tree.any(&|s| s.k == K::AlmaCustom && s.p > 6.0)
 }
